@@ -12,7 +12,7 @@ from schemas import gen_case_schema, schema_text
 import ocf
 
 PROP = 'C13'
-THEOREMS = ['C13_all_or_error', 'C13_write_all', 'C13_example']
+THEOREMS = ['C13_all_or_error', 'C13_write_all', 'C13_single_object_writer_reuse', 'C13_example', 'C13_reuse_example']
 RULE = ('scenarios: datum writer (generated schema/value), serde datum writer (fixed record type, block sizes), '
         'generic single-object writer (3 messages), container writer (header + blocks + markers, codecs null/deflate, '
         'append/append_ser/flush/finish/drop) x sink scripts: accepted length 1 / k / PRNG per call, a failure or an '
@@ -54,6 +54,11 @@ def scenarios(tier, seed):
         r = rng.fork(1000 + i)
         node, _ = gen_case_schema(r, max_depth=2)
         sc.append(('so', '(so %s %s)' % (hx(schema_text(node)), ' '.join(node.gen(r, 0) for _ in range(3)))))
+    # short messages: the writer's own state guard (buffer length 10..=20) cannot notice a leftover payload
+    sc.append(('so', '(so %s (long 1) (long -70000) (long 3))' % hx('"long"')))
+    sc.append(('so', '(so %s (record (kv #61 (int 5)) (kv #62 (boolean 1))) (record (kv #61 (int -9)) (kv #62 (boolean 0))) (record (kv #61 (int 77)) (kv #62 (boolean 1))))' % hx(
+        '{"type":"record","name":"T","fields":[{"name":"a","type":"int"},{"name":"b","type":"boolean"}]}')))
+    sc.append(('so', '(so %s (null) (null) (null))' % hx('"null"')))
     rec = '{"type":"record","name":"SerRec","fields":[{"name":"a","type":"long"},{"name":"s","type":"string"},{"name":"l","type":{"type":"array","items":"string"}},{"name":"m","type":{"type":"map","values":"int"}},{"name":"o","type":["null","double"]}]}'
     for i in range(8 if tier == 'quick' else 80):
         r = rng.fork(2000 + i)
@@ -82,6 +87,7 @@ def evaluate(run, sc, exe, drv, tier, seed):
     ref_lines = ['s%d (sinkrun %s (script 100000000 0))' % (i, body) for i, (_, body) in enumerate(sc)]
     refs = fw.run_lines(exe, ref_lines)
     lines, meta = [], {}
+    ref_marks = {}
     n = 0
     for i, (kind, body) in enumerate(sc):
         o = parse(refs.get('s%d' % i, '(missing)'))
@@ -96,6 +102,8 @@ def evaluate(run, sc, exe, drv, tier, seed):
             continue
         ref = unhx(o[3])
         pieces = [int(x) for x in o[4][1:]]
+        if kind == 'so' and len(o) > 6:
+            ref_marks[body] = [int(x) for x in o[6][1:]]
         # documented counts on a reliable sink: single-object returns the message length; container
         # calls return header + block bytes: the sum over all calls equals the file length
         if kind == 'so':
@@ -123,6 +131,13 @@ def evaluate(run, sc, exe, drv, tier, seed):
                 ps.append(hx(ref[pos:pos + p])); pos += p
             sp = parse(script)
             mlines.append('%s (sinkmodel (pieces %s) (script %s %s))' % (cid, ' '.join(ps), sp[1], ' '.join(show(x) for x in sp[3:])))
+        if kind == 'so' and not _multi_map(body) and body in ref_marks and sname != 'flushfail':
+            rm = ref_marks[body]
+            msgs = [ref[(rm[j - 1] if j else 0):rm[j]] for j in range(len(rm))]
+            if msgs and all(len(m) >= 10 and m[:10] == msgs[0][:10] for m in msgs):
+                sp = parse(script)
+                mlines.append('%s (so-sinkmodel %s (payloads %s) (script %s %s))' % (
+                    cid, hx(msgs[0][:10]), ' '.join(hx(m[10:]) for m in msgs), sp[1], ' '.join(show(x) for x in sp[3:])))
     model = fw.run_lines(drv, mlines)
     for cid, (kind, body, sname, script, ref, pieces) in meta.items():
         run.evaluations += 1
@@ -160,6 +175,41 @@ def evaluate(run, sc, exe, drv, tier, seed):
             run.fail('count-differs', 'returned counts differ from the bytes accepted', case)
         else:
             run.nontrivial_case(body + script)
+        # per message: a call that returned Ok delivered exactly that message (the writer is reused
+        # after a failed call; nothing of the failed message may travel with a later one)
+        if kind == 'so' and len(o) > 6 and not all_ok:
+            rm = ref_marks.get(body)
+            mk = [int(x) for x in o[6][1:]]
+            if rm and len(mk) == len(results) == len(rm):
+                for j, rj in enumerate(results):
+                    if tag(rj) != 'ok':
+                        continue
+                    got_j = data[(mk[j - 1] if j else 0):mk[j]]
+                    ref_j = ref[(rm[j - 1] if j else 0):rm[j]]
+                    same = (got_j == ref_j) or (unordered and sorted(got_j) == sorted(ref_j))
+                    if not same:
+                        run.fail('silent-data-loss', 'message %d returned Ok after an earlier call failed, but the sink received %d bytes for it, the reference message has %d' % (
+                            j, len(got_j), len(ref_j)), case)
+                        break
+                    if int(rj[1]) != len(got_j):
+                        run.fail('count-differs', 'message %d: returned count %s, accepted %d bytes' % (j, rj[1], len(got_j)), case)
+                        break
+                else:
+                    run.count('so:per-message-after-fault')
+        if cid in model and kind == 'so':
+            # the reusable-writer model predicts every call: result, count and the bytes the sink took
+            m = parse(model[cid])
+            mk = [int(x) for x in o[6][1:]] if len(o) > 6 else []
+            impl = []
+            for j, rj in enumerate(results):
+                seg = data[(mk[j - 1] if j else 0):mk[j]] if j < len(mk) else b''
+                impl.append(('ok', int(rj[1]), seg) if tag(rj) == 'ok' else ('err', None, seg))
+            mod = [('ok', int(x[1]), unhx(x[2])) if tag(x) == 'ok' else ('err', None, unhx(x[1])) for x in m[2:]] if tag(m) == 'ok' else None
+            if mod != impl or unhx(m[1]) != data:
+                run.disagree('sow_run', case, str([(a, b, len(c)) for a, b, c in impl]), str([(a, b, len(c)) for a, b, c in mod]) if mod is not None else show(m)[:80])
+            else:
+                run.count('so:model-agrees')
+            continue
         if cid in model and unordered:
             run.count('model-comparison-skipped-unordered-map')
         elif cid in model:
